@@ -23,6 +23,7 @@ ASSUMPTIONS = [
 ADVERSARIAL = [
     'O(Brien', 'Smith)', 'a(b)c', '((', '))', ')(', 'back\\slash', 'trail\\', '\\(', '\\)', 'quote"s', "O'Neil", '<<x>>', '>> /V (x)', '/T (y) /V (z)',
     'a\\\\b', '\\n', '\\101', '(((((((', 'Mc(Adams) & Sons \\ Co.', '[brackets]', '{braces}', '#hash', 'semi;colon', '*' * 500,
+    'two  blanks', 'three   blanks   twice', 'tab\there', 'Apt  4  (Rear)', 'a \\  b', 'x' + ' ' * 10 + 'y', 'UPPER lower MiXeD', '007', '1e3', '-0',
 ]
 
 
